@@ -143,7 +143,8 @@ def region_box(members, d, unit):
 
 
 def classify(members, X):
-    """(multiplicity, first member, quadrant in that member's frame)."""
+    """(multiplicity, first member, quadrant and inner/outer half in that
+    member's frame)."""
     inside = np.array([np.asarray(m.contains(X)) for m in members])
     mult = inside.sum(axis=0)
     first = np.argmax(inside, axis=0)
@@ -156,6 +157,13 @@ def classify(members, X):
         q = (T[:, 0] > 0).astype(int)
         if T.shape[1] > 1:
             q = q + 2 * (T[:, 1] > 0)
+        # inner / outer half (by volume) of the member's ellipsoid: catches
+        # a wrong radius law
+        dc = getattr(m, 'dim_cube', None)
+        Te = T if dc is None else T[:, ~dc]
+        if Te.shape[1] > 0:
+            r2 = np.sum(Te ** 2, axis=1)
+            q = q + 4 * (r2 < 0.5 ** (2.0 / Te.shape[1]))
         quad[sel] = q
     return np.minimum(mult, 3) * 10000 + first * 10 + quad, mult
 
